@@ -101,6 +101,11 @@ func (p *entryProv) get(u *Unit, key string) string {
 	} else {
 		u.heapTyping(key, n)
 	}
+	if strings.HasPrefix(key, "CalledWith.") && p.tag == "entry" {
+		// ghost set of first arguments a callback has been called with: empty at function entry
+		ks := strings.TrimSuffix(strings.TrimPrefix(srt, "(Array "), " Bool)")
+		u.assert(fmt.Sprintf("(forall ((x!c %s)) (! (not (select %s x!c)) :pattern ((select %s x!c))))", ks, n, n))
+	}
 	if strings.HasPrefix(key, "Res.") && p.tag == "entry" {
 		u.assert("(= " + n + " (mk-ifc 0 0))")
 	}
@@ -317,7 +322,7 @@ func (u *Unit) entryHeldAssume(key, n string) {
 // the function calls without a contract (see havocAll)
 func threadLocalKey(k string) bool {
 	return strings.HasPrefix(k, "Held.") || strings.HasPrefix(k, "Blk.") || strings.HasPrefix(k, "cell.") || strings.HasPrefix(k, "iter.") ||
-		strings.HasPrefix(k, "Calls.") || strings.HasPrefix(k, "Arg.") || strings.HasPrefix(k, "Res.")
+		strings.HasPrefix(k, "Calls.") || strings.HasPrefix(k, "Arg.") || strings.HasPrefix(k, "Res.") || strings.HasPrefix(k, "CalledWith.")
 }
 
 // frameKeyOK: keys subject to the function-level frame (object-indexed data heap keys not
